@@ -1,4 +1,5 @@
 """C15 -- MDD conversion and MDD operations preserve meaning."""
+import os
 from harness import tlcrun
 from harness.drivers import mdd_drv
 
@@ -20,14 +21,31 @@ def run(chk):
         'least significant) and checks the BDD functions intact by name. '
         'distinct_nontrivial = distinct (call, pre-table) MDD steps + distinct '
         'conversion inputs')
-    chk.mc('MC_MDD', 'MC_MDD.cfg' if q else 'MC_MDD_deep.cfg')
+    if not q:
+        chk.mc('MC_MDD', 'MC_MDD_deep.cfg', timeout=5000)
+    # S1 + S2: the quick configuration's state graph is dumped and its paths replayed into
+    # dd.mdd.MDD, the tables compared with the model state after every action (up to
+    # renumbering: dd.mdd takes freed numbers from a set)
+    dot = os.path.join(chk.dir, 'mdd.dot')
+    chk.mc('MC_MDD', 'MC_MDD.cfg', extra=['-dump', 'dot', dot])
+    gt = [dict(shard=chk.shard('mg_c15_%d' % i), dot=dot, part=i, nparts=8, limit=1200 if q else 12000,
+               seed=chk.seed, first_tid=15500000 + i * 10000) for i in range(8)]
+    gsh, gres = chk.generate(mdd_drv.mdd_graph_task, gt)
+    os.remove(dot)
+    conf = dict(steps=sum(r['conformance']['steps'] for r in gres),
+                equal=sum(r['conformance']['equal'] for r in gres),
+                first=next((r['conformance']['first'] for r in gres if r['conformance']['first']), None))
+    chk.mc_runs[-1]['state_conformance'] = conf
+    chk.mc_runs[-1]['states_by_action'] = gres[0]['kinds']
+    chk.extra['model_paths_replayed'] = sum(r['traces'] for r in gres)
+    chk.log('state conformance MC_MDD: %d/%d' % (conf['equal'], conf['steps']))
     n = tlcrun.NCPU
     tasks = [dict(shard=chk.shard('m_c15_%d' % i), tid0=15000000 + i * 1000,
                   seed=chk.seed * 37 + i, nhist=4 if q else 120,
                   steps=60 if q else 150, nconv=25 if q else 1500)
              for i in range(n)]
     sh, _ = chk.generate(mdd_drv.c15_task, tasks)
-    chk.validate('TraceMDD', 'TraceMDD.cfg', sh)
+    chk.validate('TraceMDD', 'TraceMDD.cfg', sh + gsh)
 
     def wrong_umap(tr):
         for ev in tr['events']:
